@@ -19,6 +19,8 @@ from apischema import ValidationError, settings
 
 PROP = "C14"
 RULE = (
+    "[plus every Literal type of 2..3 values drawn in every order from {1, True, '1', '1.0', 1.5, 'a', 0, False} x 70 data: "
+    "the classes are tried in the order of the values, a refusing class does not stop the search, a rejection has one entry] "
     "[plus a world of discriminated unions / classes, plain and recursive (alternative = the class itself, reached as a "
     "back-reference), on nested data: strict-accepted data stay accepted with an equal value under coerce=True and under "
     "the right-typed / raising custom coercers] "
@@ -289,11 +291,78 @@ def run_discriminated(st):
     st.count("discriminated_worlds", len(data))
 
 
+def run_literals(st):
+    """Literal types mixing the classes of their values, in every order: under coercion the classes are tried in the order
+    of the values (a datum coercible to several values gives the first), and a class the datum cannot be coerced to does
+    not stop the search"""
+    import itertools
+
+    from ..tast import Lit
+
+    pool = [1, True, "1", "1.0", 1.5, "a", 0, False]
+    data = list(dict.fromkeys(map(repr, EXTRA + [1, 0, 2, 1.0, 0.0, 1.5, True, False, None, "1.0", "0"])))
+    data = [eval(x) for x in data]
+    k = 0
+    for n in (2, 3):
+        for vals in itertools.permutations(pool, n):
+            if len({(type(v), v) for v in vals}) != n:
+                continue
+            k += 1
+            spec = Lit(tuple(vals))
+            case = dc.Case(f"literals:{vals!r}", spec)
+            rz = case.realize()
+            apischema.cache.reset()  # Literal[a, b] == Literal[b, a] for typing: cache conflation (same as the Union order finding of C09)
+            try:
+                m_strict = apischema.deserialization_method(rz.tp, coerce=False)
+                m_coerce = apischema.deserialization_method(rz.tp, coerce=True)
+            except Exception as e:
+                st.violation({"label": case.label, "signature": {"kind": "literal_compile", "exc": type(e).__name__}, "what": repr(e)[:300]})
+                continue
+            ctx_c = case.ctx(coerce=True)
+            for d in data:
+                ks, os_ = dc.run_impl(m_strict, d)
+                kc, oc = dc.run_impl(m_coerce, d)
+                st.case("literals", tuple(type(v).__name__ for v in vals), type(d).__name__, ks, kc)
+                base = {"label": case.label, "type": short(spec), "datum": repr(d)}
+                if "exc" in (ks, kc):
+                    st.violation(dict(base, signature={"kind": "exception", "exc": type(oc if kc == "exc" else os_).__name__, "mode": "literal"}, what=f"raised {(oc if kc == 'exc' else os_)!r}"[:300]))
+                    continue
+                if ks == "ok" and (kc != "ok" or not _same(os_, oc)):
+                    st.violation(dict(base, signature={"kind": "coerce_changes_valid_value", "shape": "literals"}, what=f"Literal{list(vals)}: strict gives {os_!r}, coerce=True gives {oc if kc == 'ok' else dc.impl_errors(oc)[:2]!r} for {d!r}"[:400]))
+                    continue
+                ref = conform(spec, d, ctx_c)
+                if ref is UNSPEC:
+                    st.count("unspecified")
+                    continue
+                if ref.ok != (kc == "ok") or (ref.ok and not _same(ref.value, oc)):
+                    st.violation(
+                        dict(
+                            base,
+                            signature={"kind": "literal_coercion", "classes": [type(v).__name__ for v in vals], "dclass": type(d).__name__, "accepts": kc == "ok"},
+                            what=f"Literal{list(vals)} <- {d!r} under coerce=True: {oc if kc == 'ok' else dc.impl_errors(oc)[:2]!r}, the table applied to the classes in the order of the values gives {('accept ' + repr(ref.value)) if ref.ok else 'reject'}"[:400],
+                        )
+                    )
+                elif kc == "err" and type(d) in (str, int, float, bool, type(None)):
+                    msgs = [m for _, m in dc.impl_errors(oc)]
+                    if len(msgs) != 1:
+                        # one violated rule (not one of the values), one entry; its text is not C14's business
+                        st.violation(dict(base, signature={"kind": "literal_rejection_entries", "dclass": type(d).__name__}, what=f"Literal{list(vals)} <- {d!r} under coerce=True rejected with {len(msgs)} entries {msgs}, one rule is violated"[:400]))
+            case.drop()
+    st.count("literal_types", k)
+
+
 def work(tier, widx, nworkers, st, extra):
     import os
 
     if widx == 0 and os.environ.get("VERIF_ONLY") in (None, "", "disc"):
         run_discriminated(st)
+    if widx == (1 % nworkers) and os.environ.get("VERIF_ONLY") in (None, "", "literals"):
+        try:
+            run_literals(st)
+        except Exception:
+            import traceback
+
+            st.violation({"signature": {"kind": "harness_error"}, "harness_error": True, "what": "literal world", "traceback": traceback.format_exc()[-2000:]})
     for i, label, spec in dc.my_types("quick", widx, nworkers):
         if select(tier, label):
             run_type(i, label, spec, tier, st)
